@@ -16,8 +16,8 @@ import (
 // quiescence releases it - this is how a slow listener and every relative scheduling of the
 // dispatch goroutines is represented, and it replays natively with real goroutines.
 //
-// With gap != 0 the emitter pauses after every event so that the dispatch runs in between (an
-// event then arrives while the listener is busy with the last one queued so far).
+// With gap = g > 0 the emitter pauses after every g-th event so that the dispatch runs in between
+// (events then arrive while the listener is busy with a batch queued earlier).
 //
 // Asserted: the emitter is never blocked by a slow listener; no invocation starts while another one
 // of the same listener is still running; the listener sees the events in emission order (so a
@@ -38,13 +38,14 @@ func VerifC16Order(n int, mixed int, gap int) {
 			}
 			inFlight++
 			mu.Unlock()
+			// which event this is (a case split: after merges inside the dispatcher the event may be
+			// a symbolic choice among several)
+			me := vrf.Fork(int(m.Subject[0] - '0'))
 			// later invocations release the earlier ones they overtook
-			for j := 1; j < n; j++ {
-				if m.Subject > vrfTag(j) {
-					vrf.Open("h" + vrfTag(j))
-				}
+			for j := 1; j < me; j++ {
+				vrf.Open("h" + vrfTag(j))
 			}
-			vrf.Gate("h" + m.Subject)
+			vrf.Gate("h" + vrfTag(me))
 			mu.Lock()
 			seen = append(seen, kind+m.ID)
 			inFlight--
@@ -70,7 +71,7 @@ func VerifC16Order(n int, mixed int, gap int) {
 				want = append(want, "S"+ev.ID)
 				host.Events.AfterMessageStored.Emit(&ev)
 			}
-			if gap != 0 {
+			if gap != 0 && i%gap == 0 {
 				// the dispatch gets going (as far as it can) before the next event is emitted
 				vrf.Quiesce()
 			}
